@@ -1,6 +1,7 @@
 (* Pins: full statements of the C14 theorems; a weakened theorem no longer type-checks here.
    Generated once by tools/mkpins.py from Props/C14.v and then committed: edit both or neither. *)
 From SV Require Import Lib.Base Model.Ring Proofs.RingProofs.
+From SV Require Import Model.PacketBuf Proofs.PacketBufProofs.
 From SV Require Import Props.C14.
 
 Check (C14_ring_invariant_all_sequences : forall (A : Type) (store : list A) (ops : list (ring_op A)),
@@ -59,3 +60,90 @@ Check (C14_ring_example :
   r = mkRing [5; 9; 3; 4] 2 3 /\ ring_abs r = [3; 4; 5] /\ q_fr (ring_view r) = [9] /\
   ring_inv r /\ ring_contiguous_window r = 1 /\
   Forall (@ring_op_ok Z) c14_ring_example_ops).
+
+Check (C14_pb_invariant_all_sequences : forall (H : Type) mcap pcap (ops : list (pb_op H)) b,
+  Forall (@pb_op_ok H) ops -> pb_run (pb_new H mcap pcap) ops = Some b ->
+  pb_inv b).
+
+Check (C14_pb_refines_queue : forall (H : Type) (b : pbuf H) (op : pb_op H),
+  pb_inv b -> pb_op_ok op ->
+  match pb_step b op with
+  | Ok (b', out) => pb_inv b' /\ pq_rel (pb_abs b) op out (pb_abs b')
+  | Err _ => False
+  | Panic => match op with POEnqInf max _ _ k => max < k | _ => False end
+  end).
+
+Check (C14_pb_enqueue : forall (H : Type) (b : pbuf H) size h w, pb_inv b -> 0 <= size ->
+  exists b' res, pb_enqueue b size h w = Ok (b', res) /\
+    (res = None <-> exists b1, pb_make_room b size = Ok (b1, true)) /\
+    match res with
+    | None => b' = b
+    | Some old => zlen old = size /\ pb_inv b' /\ pb_abs b' = pb_abs b ++ [(h, overlay w old)]
+    end).
+
+Check (C14_pb_enqueue_with_infallible : forall (H : Type) (b : pbuf H) max h (f : list Z -> list Z * Z),
+  pb_inv b -> 0 <= max -> (forall buf, 0 <= snd (f buf)) ->
+  (exists b' res, pb_enqueue_with_infallible b max h f = Ok (b', res) /\
+     (res = None <-> exists b1, pb_make_room b max = Ok (b1, true)) /\
+     match res with
+     | None => b' = b
+     | Some (k, seen) =>
+         zlen seen = max /\ k = snd (f seen) /\ pb_inv b' /\
+         exists pl, zlen pl = k /\ pb_abs b' = pb_abs b ++ [(h, pl)] /\
+           (k <= max -> pl = firstn (Z.to_nat k) (overlay (fst (f seen)) seen))
+     end) \/
+  (pb_enqueue_with_infallible b max h f = Panic /\
+   exists seen, zlen seen = max /\ max < snd (f seen))).
+
+Check (C14_pb_refused_unchanged : forall (H : Type) (b b' : pbuf H) size h,
+  pb_inv b -> 0 <= size ->
+  (forall w, pb_enqueue b size h w = Ok (b', None) -> b' = b) /\
+  (forall f, (forall buf, 0 <= snd (f buf)) ->
+     pb_enqueue_with_infallible b size h f = Ok (b', None) -> b' = b)).
+
+Check (C14_pb_dequeue : forall (H : Type) (b : pbuf H), pb_inv b ->
+  exists b' res, pb_dequeue b = Ok (b', res) /\ pb_inv b' /\
+    match res with
+    | None => pb_abs b = [] /\ pb_abs b' = []
+    | Some (h, p) => pb_abs b = (h, p) :: pb_abs b'
+    end).
+
+Check (C14_pb_dequeue_with : forall (H : Type) (b : pbuf H) (f : H -> list Z -> bool), pb_inv b ->
+  exists b' res, pb_dequeue_with b f = Ok (b', res) /\ pb_inv b' /\
+    match res with
+    | None => pb_abs b = [] /\ pb_abs b' = []
+    | Some (h, p, acc) =>
+        acc = f h p /\
+        exists rest, pb_abs b = (h, p) :: rest /\
+                     pb_abs b' = if acc then rest else (h, p) :: rest
+    end).
+
+Check (C14_pb_dequeue_with_decline_unchanged : forall (H : Type) (b b' : pbuf H) f res,
+  pb_inv b -> (forall h p, f h p = false) ->
+  pb_dequeue_with b f = Ok (b', res) -> pb_inv b' /\ pb_abs b' = pb_abs b).
+
+Check (C14_pb_peek : forall (H : Type) (b : pbuf H), pb_inv b ->
+  exists b' res, pb_peek b = Ok (b', res) /\ pb_inv b' /\ pb_abs b' = pb_abs b /\
+    match res with
+    | None => pb_abs b = []
+    | Some (h, p) => exists rest, pb_abs b = (h, p) :: rest
+    end).
+
+Check (C14_pb_reset : forall (H : Type) (b : pbuf H), pb_inv b ->
+  pb_inv (pb_reset b) /\ pb_abs (pb_reset b) = []).
+
+Check (C14_pb_empty_accepts : forall (H : Type) (b : pbuf H) size h, pb_inv b -> pb_abs b = [] ->
+  1 <= pb_packet_capacity b -> 0 <= size <= pb_payload_capacity b ->
+  (forall w, exists b' old, pb_enqueue b size h w = Ok (b', Some old) /\
+     pb_inv b' /\ pb_abs b' = [(h, overlay w old)] /\ zlen old = size) /\
+  (forall f, (forall buf, 0 <= snd (f buf) <= size) ->
+     exists b' k seen, pb_enqueue_with_infallible b size h f = Ok (b', Some (k, seen)) /\
+       pb_inv b' /\ zlen seen = size /\ k = snd (f seen) /\
+       pb_abs b' = [(h, firstn (Z.to_nat k) (overlay (fst (f seen)) seen))])).
+
+Check (C14_pb_example :
+  exists b, pb_run (pb_new Z 4 16) c14_pb_example_ops = Some b /\
+    ring_abs (pb_meta b) = [pm_packet 8 2; pm_padding Z 2; pm_packet 4 3] /\
+    r_read (pb_payload b) = 6 /\ r_len (pb_payload b) = 14 /\
+    pb_abs b = [(2, [11; 12; 13; 14; 15; 16; 17; 18]); (3, [21; 22; 23; 24])] /\
+    pb_inv b /\ Forall (@pb_op_ok Z) c14_pb_example_ops).
